@@ -142,20 +142,48 @@ func vxFragHidden(f *fragment) string {
 		fmt.Fprintf(&sb, "%d:%d:%d:%v,", k, vxContainerType(c), c.N(), c.Mapped())
 	}
 	sb.WriteString(vxLookaside(f.storage, byKey))
-	if sc, ok := f.rowCache.(*simpleCache); ok {
-		ks := make([]uint64, 0, len(sc.cache))
-		for k := range sc.cache {
-			ks = append(ks, k)
+	// Bookkeeping fields are READ THROUGH REFLECTION by name: they are implementation details, and a
+	// rename or a change of representation must not stop every root-package check from compiling —
+	// a field that is not there simply drops out of the fingerprint (coarser merging, never a verdict).
+	fv := reflect.ValueOf(f).Elem()
+	if rc := fv.FieldByName("rowCache"); rc.IsValid() && rc.Kind() == reflect.Interface && !rc.IsNil() {
+		if e := rc.Elem(); e.Kind() == reflect.Ptr && !e.IsNil() && e.Elem().Kind() == reflect.Struct {
+			if m := e.Elem().FieldByName("cache"); m.IsValid() && m.Kind() == reflect.Map {
+				ks := make([]uint64, 0, m.Len())
+				for _, k := range m.MapKeys() {
+					if k.Kind() == reflect.Uint64 {
+						ks = append(ks, k.Uint())
+					}
+				}
+				sort.Slice(ks, func(i, j int) bool { return ks[i] < ks[j] })
+				fmt.Fprintf(&sb, "|rc=%v", ks)
+			}
 		}
-		sort.Slice(ks, func(i, j int) bool { return ks[i] < ks[j] })
-		fmt.Fprintf(&sb, "|rc=%v", ks)
 	}
-	cks := make([]int, 0, len(f.checksums))
-	for k := range f.checksums {
-		cks = append(cks, k)
+	for _, name := range []string{"checksums", "blockSums"} {
+		if m := fv.FieldByName(name); m.IsValid() && m.Kind() == reflect.Map {
+			cks := make([]int, 0, m.Len())
+			for _, k := range m.MapKeys() {
+				if k.Kind() == reflect.Int {
+					cks = append(cks, int(k.Int()))
+				}
+			}
+			sort.Ints(cks)
+			fmt.Fprintf(&sb, "|ck=%v", cks)
+		}
 	}
-	sort.Ints(cks)
-	fmt.Fprintf(&sb, "|ck=%v|opN=%d|snap=%v|max=%d", cks, f.opN, f.snapshotting, f.maxRowID)
+	for _, name := range []string{"opN", "snapshotting", "maxRowID"} {
+		if v := fv.FieldByName(name); v.IsValid() {
+			switch v.Kind() {
+			case reflect.Int, reflect.Int64:
+				fmt.Fprintf(&sb, "|%s=%d", name, v.Int())
+			case reflect.Uint64:
+				fmt.Fprintf(&sb, "|%s=%d", name, v.Uint())
+			case reflect.Bool:
+				fmt.Fprintf(&sb, "|%s=%v", name, v.Bool())
+			}
+		}
+	}
 	if f.cache != nil {
 		ids := append([]uint64(nil), f.cache.IDs()...)
 		sort.Slice(ids, func(i, j int) bool { return ids[i] < ids[j] })
